@@ -513,8 +513,57 @@ def _own(n):
     return ast.walk(a)
 
 
+def r9_directory_names_are_not_patterns(repo=None, rid="C08.R9", modules=("digital_rf_hdf5", "digital_metadata")):
+    """The reader finds channels, properties files and data files with glob.glob on `os.path.join(<directory>, ..., <pattern>)`.
+    A directory name is data, not a pattern: `ch[1]` as pattern text matches `ch1`, so the channel is read with another channel's
+    rate and cadences (bounds right, every read empty).  Every component of the joined path other than the pattern constants
+    of list_drf and string literals is wrapped in glob.escape (alone or as part of an escaped join)."""
+    r = Rule(rid, "directory names never reach glob.glob as pattern text (glob.escape on every variable path component)")
+    n = 0
+    for mod_name in modules:
+        m = pyfront.mod(mod_name, repo)
+        for q, f in m.functions.items():
+            if "<locals>" in q:
+                continue
+            for c in pyfront.walk_no_nested(f):
+                if not (isinstance(c, ast.Call) and pyfront.call_name(c) == "glob.glob" and c.args):
+                    continue
+                n += 1
+                a = c.args[0]
+                comps = list(a.args) if isinstance(a, ast.Call) and pyfront.call_name(a) == "os.path.join" else [a]
+                bad = []
+                for x in comps:
+                    if isinstance(x, ast.Constant) and isinstance(x.value, str):
+                        continue
+                    d = pyfront.dotted(x) or ""
+                    if d.startswith("list_drf.GLOB_") or d.startswith("GLOB_"):
+                        continue
+                    if isinstance(x, ast.Call) and pyfront.call_name(x) == "glob.escape":
+                        continue
+                    if isinstance(x, ast.Name):
+                        # a local built from pattern constants only (e.g. GLOB_DRFFILE.replace("*", "rf", 1))
+                        defs = [a_.value for a_ in pyfront.walk_no_nested(f) if isinstance(a_, ast.Assign) and any(
+                            isinstance(t, ast.Name) and t.id == x.id for t in a_.targets)]
+                        if defs and all("GLOB_" in ast.unparse(d_) and not any(isinstance(y, ast.Name) and y.id not in ("list_drf",)
+                                        for y in ast.walk(d_)) for d_ in defs):
+                            continue
+                    bad.append(x)
+                site = "%s:%s %s `%s`" % (m.rel, c.lineno, q, norm(ast.unparse(c))[:70])
+                if bad:
+                    r.violation(m.rel, q, norm(ast.unparse(c))[:90], "the path component `%s` is taken as pattern text: a directory named "
+                                "`ch[1]` matches `ch1`, so one channel is found, or read with the properties of, another (bounds right, "
+                                "every read empty; a top-level directory `rec[1]` cannot be opened at all)" % norm(ast.unparse(bad[0]))[:40],
+                                line=c.lineno)
+                else:
+                    r.ok(site, "variable path components are escaped; the pattern part is a constant of the listing grammar")
+    if n < 3:
+        raise AnalysisError("only %d glob.glob calls found in the reader modules (6 confirmed on the reference tree)" % n)
+    r.guard(3)
+    return r
+
+
 def rules(repo=None):
-    return [lambda: r8_no_history_state(repo), lambda: r1_one_pipeline(repo), lambda: r2_vector_guards(repo), lambda: r3_guard_on_sample_axis(repo),
+    return [lambda: r9_directory_names_are_not_patterns(repo), lambda: r8_no_history_state(repo), lambda: r1_one_pipeline(repo), lambda: r2_vector_guards(repo), lambda: r3_guard_on_sample_axis(repo),
             lambda: c01.r3_exact_lookup(repo, rid="C08.R4"), lambda: r5_subchannel_column(repo),
             lambda: r6_lossless_conversion(repo), lambda: c01.r6_exact_index_use(repo, rid="C08.R7")]
 
@@ -532,4 +581,4 @@ EXPLANATION = (
     'bounds arithmetic.')
 TECHNIQUE = ('Python ast; sibling comparison of the data and length pipelines (homomorphic image under len); CFG must-pass for guards; float-taint; promotion table')
 ASSUMPTIONS = ["numpy.promote_types table for float x integer types (documented)", "h5py dataset slicing returns rows [a, b)"]
-FILES = ["python/digital_rf/digital_rf_hdf5.py"]
+FILES = ["python/digital_rf/digital_rf_hdf5.py", "python/digital_rf/digital_metadata.py"]
